@@ -14,7 +14,16 @@ ASSUMPTIONS = [
 HEADER = 'From Flaxm Require Import Lib.Harness Model.NnxFilters Model.NnxLift Model.LinenLoop.\nOpen Scope Z_scope.\n'
 
 
+def gen_remat_scan(rng):
+  lengths = [rng.randint(1, 3) for _ in range(rng.randint(1, 3))]
+  n = int(np.prod(lengths))
+  return {'kind': 'remat_scan', 'lengths': lengths, 'a': rng.choice([1, 2, -1]), 'w': np.array([rng.randint(-3, 3) for _ in range(n)]).reshape(lengths).tolist(), 'winit': rng.randint(-2, 2),
+          'c0': rng.randint(-2, 2)}
+
+
 def gen_case(rng, kind):
+  if kind == 'remat_scan':
+    return gen_remat_scan(rng)
   L = rng.randint(1, 4)
   nv = rng.randint(1, 5)
   vars_ = []
@@ -30,7 +39,16 @@ def gen_case(rng, kind):
     val = np.array([rng.randint(-3, 4) for _ in range(size)], dtype=np.int64).reshape(full).tolist()
     vars_.append({'spec': spec, 'slice_shape': slice_shape, 'val': val, 'init': rng.randint(-2, 3), 'path': [str(j)], 'type': 'Param'})
   body = C8.gen_body(rng, vars_, 'scan' if kind == 'scan' else 'vmap')
-  return {'kind': kind, 'length': L, 'reverse': rng.random() < 0.4, 'unroll': rng.randint(1, 3), 'split': {'params': rng.random() < 0.5, 'dropout': rng.random() < 0.5},
+  readonly = rng.random() < 0.25
+  if readonly:
+    # a body that only reads, with key-dependent initialisers and no carry collection: init's output must be the loop over the variables init returns
+    body = {'stmts': [], 'ret': body['ret']}
+    for v in vars_:
+      v['rand_init'] = True
+      if v['spec'] == 'carry':
+        v['spec'] = None
+  return {'readonly': readonly, 'kind': kind, 'length': L, 'reverse': rng.random() < 0.4, 'unroll': rng.randint(1, 3),
+          'split': {'params': (rng.random() < 0.5) and not readonly, 'dropout': rng.random() < 0.5},       # a broadcast variable initialised from a split stream would depend on the iteration
           'draw': rng.sample(['params', 'dropout'], rng.randint(0, 2)), 'vars': vars_, 'body': body, 'xs': [rng.randint(-3, 3) for _ in range(L)], 'c0': rng.randint(-2, 2)}
 
 
@@ -61,7 +79,7 @@ def run(chk):
   rng = chk.rng
   thorough = chk.tier == 'thorough'
   chk.proofs(PROOF_FILES)
-  cases = [gen_case(rng, 'scan' if i % 2 == 0 else 'vmap') for i in range(1600 if thorough else 160)]
+  cases = [gen_case(rng, ['scan', 'vmap', 'scan', 'vmap', 'remat_scan'][i % 5]) for i in range(1600 if thorough else 160)]
   W = 12
   results = common.run_impl_parallel('impl_c06.py', [{'cases': cases[i::W]} for i in range(W)], workers=W, timeout=3000)
   obs = [None] * len(cases)
@@ -72,6 +90,21 @@ def run(chk):
   f25 = []
   stat = {'scan': 0, 'vmap': 0, 'apply_err': 0, 'init_err': 0, 'bcast_write': 0}
   for d, o in zip(cases, obs):
+    if d['kind'] == 'remat_scan':
+      chk.count(d, len(d['lengths']) > 1)
+      stat['remat_scan'] = stat.get('remat_scan', 0) + 1
+      if 'err' in o:
+        chk.violation('oracle', 'the remat_scan case could not be run: %s' % o['err'], {'case': d, 'tb': o.get('tb')})
+        continue
+      r = o['ok']
+      n = int(np.prod(d['lengths']))
+      if 'err' in r['apply'] or 'err' in r['loop'] or r['apply']['ok'] != r['loop']['ok']:
+        chk.violation('oracle', 'nn.remat_scan(lengths) differs from the loop over prod(lengths) layers', {'case': d, 'observed': r})
+        continue
+      if 'err' in r['init'] or r['init']['ok']['shape'] != d['lengths']:
+        chk.violation('oracle', 'init through nn.remat_scan does not create one parameter slice per layer (shape = lengths)', {'case': d, 'observed': r['init']})
+      rows.append((d, o, '(Z.eqb (fold_left (fun c w => %s * c + w) %s %s) %s)' % (cZ(d['a']), clist([cZ(int(z)) for z in np.array(d['w']).reshape(-1)]), cZ(d['c0']), cZ(r['apply']['ok']['out']))))
+      continue
     specs = [v['spec'] for v in d['vars']]
     chk.count(d, d['length'] > 1 and len({('axis' if isinstance(s, int) else s) for s in specs}) >= 2)
     stat[d['kind']] += 1
@@ -135,7 +168,10 @@ def run(chk):
         if ini['ok']['shapes'][col]['v%d' % j] != full:
           chk.violation('oracle', 'init through nn.%s gives a variable the wrong shape (one slice per iteration along the declared axis / broadcast initialised once)' % d['kind'],
                         {'case': d, 'var': j, 'shape': ini['ok']['shapes'][col]['v%d' % j], 'expected': full})
-      row.append(expect_row(ini['ok'], cvars(d, init=True)))
+      if ini['ok'].get('init_consistent') is False:
+        chk.violation('oracle', 'the output of init through nn.%s is not the loop over the variables init returns (a collection was initialised twice)' % d['kind'], {'case': d, 'observed': ini['ok']})
+      if not d.get('readonly'):
+        row.append(expect_row(ini['ok'], cvars(d, init=True)))
     rows.append((d, o, '(' + ' && '.join(row) + ')'))
   chk.sample({'case': cases[0], 'observed': obs[0].get('ok', {}).get('apply')})
   hdr = HEADER + '''Definition vval_beq (a b : vval) : bool :=
